@@ -9,6 +9,9 @@
 // Outside the claim: payload types with non-trivial copy/move (C05), optional::to_exception (throws; a throw ends the
 // path in this engine), optional::output (iostream), to_pointer/from_pointer (raw pointer identity only).
 //@property C04
+// by-value / T&& continuations on an instrumented payload (a moved-from value is observable there, not with int payloads):
+// the optional/either/variant harnesses of C05_byvalue.cpp are decided again for C04 ("return what the documentation states")
+//@import C05_byvalue.cpp only=^h_bv_(optional|either|variant)_
 #include "C04_common.hpp"
 #include <fcppt/make_cref.hpp>
 #include <fcppt/reference_impl.hpp>
